@@ -51,7 +51,16 @@ func checkC16(c c16Case) verdict {
 	} else {
 		u, err = otp.GenerateHOTPURL(p)
 	}
+	// The round trip is stated for SUPPORTED code lengths (1..10, 0 meaning 6). A builder or a parser that refuses a
+	// code length no generator supports holds the property; if both accept it, the numbers must still come back exactly.
+	unsupported := c.Digits > 10
+	if unsupported {
+		labels = append(labels, "unsupported-digits")
+	}
 	if err != nil || u == nil {
+		if unsupported {
+			return ok(false, append(labels, "builder-refuses")...)
+		}
 		return bad(nt, labels, "Generate%sURL(%+v) failed: %v", strings.ToUpper(c.Kind), p, err)
 	}
 	if u.Scheme != "otpauth" || u.Host != c.Kind {
@@ -64,6 +73,9 @@ func checkC16(c c16Case) verdict {
 	}
 	got, err := otp.ParseOTPAuthURL(u2)
 	if err != nil || got == nil {
+		if unsupported {
+			return ok(false, append(labels, "parser-refuses")...)
+		}
 		return bad(nt, labels, "ParseOTPAuthURL(%q) failed: %v (input %+v)", text, err, p)
 	}
 	wantDigits := c.Digits
@@ -92,7 +104,7 @@ func checkC16(c c16Case) verdict {
 }
 
 var c16Main = newPart("C16", "roundtrip",
-	"rapid: issuer (no ':'), account, secret = non-empty valid UTF-8 strings over an alphabet biased to space % / ? # & = + @ ; , \" < > \\ control and non-ASCII characters, percent-escape look-alikes (%20 %zz %), leading '/', '.' and '..'; digits 0..255, period 0..2^31, three hashes, totp/hotp; oracle: ParseOTPAuthURL(url.Parse(Generate*URL(p).String())) returns p's issuer, account, secret, hash, digits (0 -> 6) and, for TOTP, period (0 -> 30); scheme otpauth, host = type, issuer parameter == label issuer; non-trivial = some string contains a character net/url must escape",
+	"rapid: issuer (no ':'), account, secret = non-empty valid UTF-8 strings over an alphabet biased to space % / ? # & = + @ ; , \" < > \\ control and non-ASCII characters, percent-escape look-alikes (%20 %zz %), leading '/', '.' and '..'; digits 0..255, period 0..2^31, three hashes, totp/hotp; oracle (for code lengths 0..10; above 10 the builder or the parser may refuse, and if neither does the same equalities are demanded): ParseOTPAuthURL(url.Parse(Generate*URL(p).String())) returns p's issuer, account, secret, hash, digits (0 -> 6) and, for TOTP, period (0 -> 30); scheme otpauth, host = type, issuer parameter == label issuer; non-trivial = some string contains a character net/url must escape",
 	checkC16)
 
 var urlAtoms = []string{" ", "%", "/", "?", "#", "&", "=", "+", "@", ";", ",", "\"", "<", ">", "\\", "%20", "%zz", "%2F", "%3A", "..", ".", "//", "\t", "\n", "\x00", "\x7f", "é", "日本", "😀", "a", "b", "Z", "0", "~", "-", "_", "!", "*", "'", "(", ")", "[", "]", "{", "}", "|", "^", "`", "$"}
